@@ -69,6 +69,19 @@ partial def loopNotary (h : IO.FS.Stream) (st : NotaryDrv.DSt) (n : Nat) : IO No
     loopNotary h st' (n + 1)
   | none => loopNotary h st' (n + 1)
 
+partial def loopGossip (h : IO.FS.Stream) (st : GossipDrv.DSt) (n : Nat) : IO GossipDrv.DSt := do
+  let line ← h.getLine
+  if line.isEmpty then return st
+  let l := line.trimAscii.toString
+  if l.isEmpty || l.startsWith "#" then loopGossip h st (n + 1) else
+  let (st', msg) := GossipDrv.step st n l
+  match msg with
+  | some m =>
+    if st'.stats.mismatches + st'.stats.bad < 20 then IO.println (if m.startsWith "MISMATCH" then m else s!"BADLINE {n} | {l} | {m}")
+    let st' := if m.startsWith "MISMATCH" then st' else { st' with stats := { st'.stats with bad := st'.stats.bad + 1 } }
+    loopGossip h st' (n + 1)
+  | none => loopGossip h st' (n + 1)
+
 def printSummary (st : Stats) : IO Unit := do
   let br := st.branches.map fun (k, n) => s!"{k}={n}"
   IO.println s!"SUMMARY lines={st.lines} mismatches={st.mismatches} bad={st.bad} branches={" ".intercalate br}"
@@ -86,6 +99,10 @@ def main (args : List String) : IO UInt32 := do
       let st ← loopAwait stdin {} {} 1
       printSummary st
       return (if st.mismatches == 0 && st.bad == 0 then 0 else 1)
+    if sec == "gossip" then
+      let st ← loopGossip stdin {} 1
+      printSummary st.stats
+      return (if st.stats.mismatches == 0 && st.stats.bad == 0 then 0 else 1)
     if sec == "notary" then
       let st ← loopNotary stdin {} 1
       printSummary st.stats
